@@ -6,7 +6,7 @@ import ast
 from pathlib import Path
 
 from lcmsa.alg import METHODS, _short, first_difference, hoist, lib_op, norm
-from lcmsa.core import AnalysisError, callee_name, is_term, walk
+from lcmsa.core import AnalysisError, callee_name, canon_bv, is_term, walk
 from lcmsa.editdist import local_cost, local_cost2
 from lcmsa.report import Ctx, rule
 
@@ -117,7 +117,25 @@ def covered_functions(prog):
                     out.add(it[0])
                     out.add(it[1] if it[1].startswith("lcmref.") else f"{REF}.{it[1]}")
         _COVERED = frozenset(out)
-    return _COVERED
+    # a covered helper that was moved to another module of the package keeps its reviewed form (and stays opaque)
+    moved = getattr(prog, "_covered_moved", None)
+    if moved is None:
+        missing = {q.rsplit(".", 1)[-1] for q in _COVERED if q.startswith("lcm.") and q not in prog.funcs}
+        moved = frozenset(q for q, i in prog.funcs.items() if i.parent is None and i.cls is None and q.startswith("lcm.")
+                          and q not in _COVERED and q.rsplit(".", 1)[-1] in missing and q.rsplit(".", 1)[-1].startswith("_"))
+        prog._covered_moved = moved  # noqa: SLF001
+    return _COVERED | moved
+
+
+def _relocated(prog, q):
+    """A private helper that was moved to another module of the package is still the same anchor."""
+    if q in prog.funcs:
+        return q
+    short = q.rsplit(".", 1)[-1]
+    if not short.startswith("_"):
+        return q
+    others = [x for x, i in prog.funcs.items() if x.startswith("lcm.") and i.parent is None and i.cls is None and x.rsplit(".", 1)[-1] == short]
+    return others[0] if len(others) == 1 else q
 
 
 def _loops_of(prog, q):
@@ -208,6 +226,7 @@ def compare(ctx: Ctx, actual_q: str, ref_name: str, what: str, *, decorated=Fals
     ensure_ref(prog)
     ref_q = f"{REF}.{ref_name}"
     key = f"KER:{actual_q.removeprefix('lcm.')}"
+    actual_q = _relocated(prog, actual_q)
     if actual_q not in prog.funcs:
         ctx.undecided(key, f"function {actual_q} not found (anchor vanished)")
         return
@@ -229,7 +248,7 @@ def compare(ctx: Ctx, actual_q: str, ref_name: str, what: str, *, decorated=Fals
         def pre(x):
             x = comprehend(prog, prog.expand(x, skip=frozenset() if full else covered - {actual_q, ref_q}, loops=full))
             if full:
-                x = anon_fn(beta_partial(content(prog, x, 0, None, True)))
+                x = canon_fn_tags(anon_fn(beta_partial(content(prog, x, 0, None, True))))
             return x
         return pre
 
@@ -245,12 +264,13 @@ def compare(ctx: Ctx, actual_q: str, ref_name: str, what: str, *, decorated=Fals
 
     def level(full):
         out = []
-        pa_, pr_ = canon_fn_guards(renumber_bv(norm(lc(fa.ret, full)))), canon_fn_guards(renumber_bv(norm(from_ref(fr.ret, full))))
+        ra_, rr_ = with_raise_domain(fa.ret, fa.raises), with_raise_domain(fr.ret, fr.raises)
+        pa_, pr_ = canon_fn_guards(canon_bv(norm(undef_arms(lc(ra_, full))))), canon_fn_guards(canon_bv(norm(undef_arms(from_ref(rr_, full)))))
         a_, r_ = hoist(pa_), hoist(pr_)
         if a_ != r_:
             out.append(("result", a_, r_, pa_, pr_))
-        ga = [(tuple(hoist(renumber_bv(norm(lc(c, full)))) for c in conds if c[0] != "in-loop"), _exc_class(e)) for conds, e, _n in fa.raises]
-        gr = [(tuple(hoist(renumber_bv(norm(from_ref(c, full)))) for c in conds if c[0] != "in-loop"), _exc_class(e)) for conds, e, _n in fr.raises]
+        ga = [(tuple(hoist(canon_bv(norm(lc(c, full)))) for c in conds if c[0] != "in-loop"), _exc_class(e)) for conds, e, _n in fa.raises]
+        gr = [(tuple(hoist(canon_bv(norm(from_ref(c, full)))) for c in conds if c[0] != "in-loop"), _exc_class(e)) for conds, e, _n in fr.raises]
         if ga != gr and not guards_equivalent(ga, gr):
             out.append(("guards", tuple(ga), tuple(gr), tuple(ga), tuple(gr)))
         return out
@@ -489,7 +509,10 @@ def _loop_as_comp(prog, lid, name):
     paths = sorted(((path, n) for (l2, n), path in prog.loopvar_paths.items() if l2 == lid), key=lambda pn: pn[0])
     if not paths or any(len(p) > 1 for p, _n in paths):
         return None
-    mapping = {("loopvar", lid, n): ("bv", 1, i) for i, (_p, n) in enumerate(paths)}
+    from lcmsa.core import _UNIQ
+
+    _UNIQ[0] += 1
+    mapping = {("loopvar", lid, n): ("bv", f"c{_UNIQ[0]}", i) for i, (_p, n) in enumerate(paths)}
     target = mapping[("loopvar", lid, paths[0][1])] if paths[0][0] == () else ("tuple", tuple(mapping[("loopvar", lid, n)] for _p, n in paths))
 
     def sub(t):
@@ -502,13 +525,20 @@ def _loop_as_comp(prog, lid, name):
     # inner loops first: their tables refer to this loop's variables, which become bound variables below
     elt = tuple(comprehend(prog, e, 1) for e in elt) if kind == "dict" else comprehend(prog, elt, 1)
     conds = [comprehend(prog, c, 1) for c in conds]
-    elt2 = sub(_shift_bv(elt, 1))
-    conds2 = tuple(sub(_shift_bv(c, 1)) for c in conds)
+    elt2 = sub(elt)
+    conds2 = tuple(sub(c) for c in conds)
     return kind, elt2, ((target, lp.iter, conds2),), init
 
 
 def comprehend(prog, t, depth=0):
     """Replace after-loop values of pure list/dict building loops by the equivalent comprehension."""
+    if depth == 0:
+        r = _comprehend(prog, t, 1)
+        return canon_bv(r) if r != t else t
+    return _comprehend(prog, t, depth)
+
+
+def _comprehend(prog, t, depth=0):
     if not isinstance(t, tuple) or depth > 40:
         return t
     if is_term(t) and t[0] == "loopout" and len(t) == 3:
@@ -576,6 +606,39 @@ def anon_fn(t):
                 sig.append((kind, name, default))
         return ("fn", tuple(sig), *_subst_params(t[2:], m))
     return t
+
+
+def canon_fn_tags(t):
+    """The tag that ties a function value's parameters to it is renumbered by nesting level (it was assigned by
+    recursion depth when the value was built, which changes when a call layer is reduced away)."""
+    def go(x, level):
+        if not isinstance(x, tuple):
+            return x
+        if is_term(x) and x[0] == "fn" and len(x) == 5:
+            tags = sorted({y[1] for y in walk(x[2:]) if y[0] == "param" and isinstance(y[1], str) and y[1].startswith("#fn")})
+            body = x[2:]
+            if tags:
+                own, new = tags[0], f"#Fn{level}"
+                body = _retag(body, own, new)
+            return ("fn", x[1], *(go(b, level + 1) for b in body))
+        return tuple(go(y, level) if isinstance(y, tuple) else y for y in x)
+
+    def fin(x):
+        if not isinstance(x, tuple):
+            return x
+        if is_term(x) and x[0] == "param" and isinstance(x[1], str) and x[1].startswith("#Fn"):
+            return ("param", "#fn" + x[1][3:], *x[2:])
+        return tuple(fin(y) if isinstance(y, tuple) else y for y in x)
+
+    return fin(go(t, 0))
+
+
+def _retag(t, old, new):
+    if not isinstance(t, tuple):
+        return t
+    if is_term(t) and t[0] == "param" and t[1] == old:
+        return ("param", new, *t[2:])
+    return tuple(_retag(x, old, new) if isinstance(x, tuple) else x for x in t)
 
 
 def content(prog, t, depth=0, covered=None, every=False):
@@ -666,6 +729,30 @@ def beta_partial(t):
     if t[0] == "call" and callee_name(t) == "dags.signature.with_signature" and len(t[2]) == 1:
         # with_signature(f, args=A) == with_signature(args=A)(f)
         return beta_partial(("call", ("call", t[1], (), t[3]), (t[2][0],), ()))
+    if t[0] == "call" and is_term(t[1]) and t[1][0] == "fn" and len(t[1]) == 5 and t[1][3] == ("tuple", ()) and not t[1][4] \
+            and all(k is not None for k, _ in t[3]) and not any(is_term(a) and a[0] == "star" for a in t[2]):
+        # calling a function value directly: beta reduction (parameters := arguments)
+        lam = t[1]
+        sig = list(lam[1])
+        tagname = None
+        for x in walk(lam[2:]):
+            if x[0] == "param" and isinstance(x[1], str) and x[1].startswith("#fn"):
+                tagname = x[1] if tagname is None else min(tagname, x[1])
+        pos_params = [e for e in sig if e[0] in ("pos", "arg")]
+        binding, ok = {}, len(t[2]) <= len(pos_params)
+        if ok:
+            for e, v in zip(pos_params, t[2], strict=False):
+                binding[e[1]] = v
+            for k, v in t[3]:
+                e = next((e for e in sig if e[1] == k and e[0] in ("arg", "kwonly")), None)
+                if e is None or k in binding:
+                    ok = False
+                    break
+                binding[k] = v
+        unbound = [e for e in sig if e[0] in ("pos", "arg", "kwonly") and e[1] not in binding and e[2] is None]
+        if ok and not unbound and not any(e[0] in ("var", "kw") for e in sig) and not any(e[2] is not None and e[1] not in binding for e in sig):
+            m = {("param", tagname, k): v for k, v in binding.items()} if tagname is not None else {}
+            return beta_partial(_subst_params(lam[2], m))
     if t[0] == "call" and callee_name(t) == "functools.partial" and t[2] and is_term(t[2][0]) and t[2][0][0] == "fn" \
             and len(t[2][0]) == 5 and all(k is not None for k, _ in t[3]):
         lam = t[2][0]
@@ -845,40 +932,6 @@ def fuse_comps(t):
     return t
 
 
-def renumber_bv(t, level=1, env=None):
-    """Bound variables numbered by the nesting level of the comprehension/lambda that binds them."""
-    env = env or {}
-    if not isinstance(t, tuple):
-        return t
-    if is_term(t) and t[0] == "bv" and len(t) == 3:
-        return env.get(t, t)
-    if is_term(t) and t[0] == "comp" and len(t) == 4:
-        env2 = dict(env)
-        gens = []
-        k = 0
-        for tg, it, conds in t[3]:
-            it2 = renumber_bv(it, level + 1, env2)
-            for b in [x for x in walk(tg) if x[0] == "bv"] if is_term(tg) else []:
-                env2[b] = ("bv", level, k)
-                k += 1
-            gens.append((renumber_bv(tg, level + 1, env2), it2, tuple(renumber_bv(c, level + 1, env2) for c in conds)))
-        elt = t[2]
-        elt2 = tuple(renumber_bv(x, level + 1, env2) for x in elt) if t[1] == "dict" else renumber_bv(elt, level + 1, env2)
-        return ("comp", t[1], elt2, tuple(gens))
-    if is_term(t) and t[0] == "op" and len(t) == 5 and t[1] == "count" and dict(t[2]).keys() >= {"where", "for", "in"}:
-        # count(where c for tg in it): a binder like a comprehension
-        d = dict(t[2])
-        env2 = dict(env)
-        it2 = renumber_bv(d["in"], level + 1, env2)
-        k = 0
-        for b in [x for x in walk(d["for"]) if x[0] == "bv"] if is_term(d["for"]) else []:
-            env2[b] = ("bv", level, k)
-            k += 1
-        d2 = {"where": renumber_bv(d["where"], level + 1, env2), "for": renumber_bv(d["for"], level + 1, env2), "in": it2}
-        return ("op", "count", tuple(sorted(d2.items())), t[3], t[4])
-    return tuple(renumber_bv(x, level, env) if isinstance(x, tuple) else x for x in t)
-
-
 def resort_caps(t):
     """Captured values of reified closures in a canonical order (after all renamings)."""
     if not isinstance(t, tuple):
@@ -924,6 +977,7 @@ def compare_factory(ctx: Ctx, actual_q: str, ref_name: str, what: str, *, soft: 
     ensure_ref(prog)
     ref_q = ref_name if ref_name.startswith("lcmref.") else f"{REF}.{ref_name}"
     key = f"KER:{actual_q.removeprefix('lcm.')}"
+    actual_q = _relocated(prog, actual_q)
     if actual_q not in prog.funcs:
         ctx.undecided(key, f"function {actual_q} not found (anchor vanished)")
         return
@@ -985,10 +1039,10 @@ def compare_factory(ctx: Ctx, actual_q: str, ref_name: str, what: str, *, soft: 
         def pre(x):
             x = prog.expand(x, skip=frozenset() if full else covered_functions(prog), loops=full)
             if full:
-                x = anon_fn(beta_partial(content(prog, comprehend(prog, x), 0, None, True)))
+                x = canon_fn_tags(anon_fn(beta_partial(content(prog, comprehend(prog, x), 0, None, True))))
             else:
                 # closures by what they compute (captured values substituted), not by where they are defined
-                x = beta_partial(content(prog, comprehend(prog, x), 0, None, False))
+                x = canon_fn_tags(beta_partial(content(prog, comprehend(prog, x), 0, None, False)))
             return x
         return pre
 
@@ -1001,8 +1055,10 @@ def compare_factory(ctx: Ctx, actual_q: str, ref_name: str, what: str, *, soft: 
         # full: function VALUES (helpers passed to vmap, partial, ...) by what they compute, whatever they are called
         pre_f = pre_full if full else pre_plain
         t = pre_f(t)
-        t = renumber_bv(fuse_comps(loop_content(prog, comprehend(prog, t), 0, lc_memo, (), pre_f)))
-        t = reify_closures(prog, t)
+        # closures that could not be represented by content: (definition site, captured values); the captured values
+        # then go through the same passes as everything else
+        t = pre_f(reify_closures(prog, t))
+        t = canon_bv(fuse_comps(canon_bv(loop_content(prog, comprehend(prog, canon_bv(t)), 0, lc_memo, (), pre_f))))
         t = strip_messages(canon(t, idx, is_ref))
         return resort_caps(_retarget(prog, t, ia.module) if is_ref else t)
 
@@ -1018,7 +1074,7 @@ def compare_factory(ctx: Ctx, actual_q: str, ref_name: str, what: str, *, soft: 
         return out
 
     def pieces(frame, q, closures, tag, info):
-        out = [("factory result", frame.ret)]  # loops are part of the result (loop_content)
+        out = [("factory result", with_raise_domain(frame.ret, frame.raises))]  # loops are part of the result (loop_content)
         out += [(f"factory {l}", t) for l, t in side_effects(frame, q)]
         if info.parent is None and info.cls is None and info.node.decorator_list:
             dec = prog.module_frame(info.module).env.get(info.node.name)
@@ -1040,8 +1096,8 @@ def compare_factory(ctx: Ctx, actual_q: str, ref_name: str, what: str, *, soft: 
     ctx.count("kernels")
     if soft:
         _soft_verdict(ctx, prog, key, where, what, pa, pr, ga, gr,
-                      lambda t, is_ref: hoist(canon_fn_guards(renumber_bv(norm(prep(t, idx_a if not is_ref else idx_r, is_ref))))),
-                      lambda t, is_ref: canon_fn_guards(renumber_bv(norm(prep(t, idx_a if not is_ref else idx_r, is_ref)))))
+                      lambda t, is_ref: hoist(canon_fn_guards(canon_bv(norm(undef_arms(prep(t, idx_a if not is_ref else idx_r, is_ref)))))),
+                      lambda t, is_ref: canon_fn_guards(canon_bv(norm(undef_arms(prep(t, idx_a if not is_ref else idx_r, is_ref))))))
         return
     if [l for l, _ in pa] != [l for l, _ in pr]:
         ctx.undecided(key, f"{what}: number of nested functions differs from the reference", where)
@@ -1052,12 +1108,12 @@ def compare_factory(ctx: Ctx, actual_q: str, ref_name: str, what: str, *, soft: 
         """[(label, hoisted a, hoisted r, plain a, plain r)] for the pieces that differ at this inlining level."""
         out = []
         for (label, ta), (_l, tr) in zip(pa, pr, strict=True):
-            pa_, pr_ = canon_fn_guards(renumber_bv(norm(prep(ta, idx_a, False, full)))), canon_fn_guards(renumber_bv(norm(prep(tr, idx_r, True, full))))
+            pa_, pr_ = canon_fn_guards(canon_bv(norm(undef_arms(prep(ta, idx_a, False, full))))), canon_fn_guards(canon_bv(norm(undef_arms(prep(tr, idx_r, True, full)))))
             a_, r_ = hoist(pa_), hoist(pr_)
             if a_ != r_:
                 out.append((label, a_, r_, pa_, pr_))
-        na_g = [(tuple(hoist(renumber_bv(norm(prep(c, idx_a, False, full)))) for c in conds if c[0] != "in-loop"), _exc_class(e)) for conds, e in ga]
-        nr_g = [(tuple(hoist(renumber_bv(norm(prep(c, idx_r, True, full)))) for c in conds if c[0] != "in-loop"), _exc_class(e)) for conds, e in gr]
+        na_g = [(tuple(hoist(canon_bv(norm(prep(c, idx_a, False, full)))) for c in conds if c[0] != "in-loop"), _exc_class(e)) for conds, e in ga]
+        nr_g = [(tuple(hoist(canon_bv(norm(prep(c, idx_r, True, full)))) for c in conds if c[0] != "in-loop"), _exc_class(e)) for conds, e in gr]
         if na_g != nr_g and not guards_equivalent(na_g, nr_g):
             out.append(("guards", tuple(na_g), tuple(nr_g), tuple(na_g), tuple(nr_g)))
         return out
@@ -1158,7 +1214,7 @@ def _lifted_equal(prog, fa, fr, ia, ir, actual_q, ref_q):
         def low(x):
             x = prog.expand(x, skip=covered)
             x = beta_partial(content(prog, comprehend(prog, x), 0, covered))
-            x = renumber_bv(fuse_comps(loop_content(prog, x, 0, lc_memo)))
+            x = canon_bv(fuse_comps(loop_content(prog, x, 0, lc_memo)))
             x = strip_messages(_subst_params(x, mapping) if is_ref else x)
             if is_ref:
                 x = _retarget(prog, x, ia.module)
@@ -1339,6 +1395,12 @@ def atomic_diffs(a, b, path="", out=None):
                 and len(_merge_leaves(a)) > 1:
             out.append(f"{path}: operator {'|' if b[0] == 'op' else '&'} instead of {'&' if b[0] == 'op' else '|'}")
             return out
+        # the reviewed sequence re-ordered: sorted(x, key=...) / reversed(x) against x
+        for x, y, word in ((a, b, "is additionally re-ordered by"), (b, a, "is no longer re-ordered by")):
+            if x[0] == "call" and len(x) == 4 and x[1] in (("glob", "builtins.sorted"), ("glob", "builtins.reversed")) \
+                    and len(x[2]) == 1 and x[2][0] == y:
+                out.append(f"{path}: the sequence {word} {x[1][1].split('.')[-1]}(...)")
+                return out
         # x.m() against x  (e.g. d.values() where the reviewed form iterates d)
         for x, y, word in ((a, b, "additionally goes through"), (b, a, "no longer goes through")):
             if x[0] == "call" and len(x) == 4 and not x[2] and not x[3] and x[1][0] == "attr" and x[1][1] == y:
@@ -1596,6 +1658,38 @@ def _project_table(table, keep_after, removed):
     for bits, val in table.items():
         out[tuple(b for j, b in zip(cols, bits, strict=True) if j != removed)] = val
     return out
+
+
+def with_raise_domain(ret, raises):
+    """The result of a function as a decision tree that is bottom where the function raises:
+    if(g1, bottom, if(g2, bottom, ... result)).  Two functions that return the same values on the inputs they
+    accept, but test their conditions in another order (`if a: return X; if not b: raise; return Y` against
+    `if b: return Y; elif a: return X; else: raise`), then have one normal form once the conditions are ordered
+    (alg.hoist) and the bottom arms are dropped (last)."""
+    out = ret
+    for conds, _e, _n in reversed(list(raises)):
+        cs = [c for c in conds]
+        if any(c[0] == "in-loop" for c in cs) or not cs:
+            continue
+        inner = ("bottom",)
+        for c in reversed(cs):
+            inner = ("phi", c, inner, out)
+        out = inner
+    return out
+
+
+def undef_arms(t):
+    """phi(c, X, <undef>): the variable is not assigned on that path because the path raises -> an explicit bottom
+    arm, like the raising paths of structured returns (dropped after the conditions are ordered)."""
+    if not isinstance(t, tuple):
+        return t
+    t = tuple(undef_arms(x) if isinstance(x, tuple) else x for x in t)
+    if is_term(t) and t[0] in ("phi", "ifexp") and len(t) == 4:
+        if t[2] == ("undef",):
+            return (t[0], t[1], ("bottom",), t[3])
+        if t[3] == ("undef",):
+            return (t[0], t[1], t[2], ("bottom",))
+    return t
 
 
 def canon_fn_guards(t):
